@@ -21,12 +21,14 @@ Definition d_att (v : val) : option (option reply) :=
   | _ => None
   end.
 
-(* write outcome: VL [VN 0] id | VL [VN 1; att] QueueError | VL [VN 2] other exception *)
+(* write outcome: VL [VN 0] id | VL [VN 1; att] QueueError | VL [VN 2; VN family] other exception
+   (family 0 Exception, 1 gevent.Timeout, 2 other BaseException-only class) *)
 Definition d_wout (v : val) : option wout :=
   match v with
   | VL [VN 0] => Some WId
   | VL [VN 1; a] => match d_att a with Some a' => Some (WQErr a') | None => None end
-  | VL [VN 2] => Some WExc
+  | VL [VN 2] => Some (WExc ExException)
+  | VL [VN 2; VN x] => Some (WExc (if x =? 0 then ExException else if x =? 1 then ExTimeout else ExBase))
   | _ => None
   end.
 
@@ -102,17 +104,17 @@ Definition e_event (e : event) : val :=
 
 Definition e_smtp (r : trace * answer code) : val :=
   VL [VL (map e_event (fst r));
-      match snd r with Replied c => VL [VB c] | NoReply => VL [] end].
+      match snd r with Replied c => VL [VB c] | NoReply => VL [] | Dropped => VL [VL []] end].
 Definition e_wsgi (r : trace * answer N) : val :=
   VL [VL (map e_event (fst r));
-      match snd r with Replied s => VL [VN s] | NoReply => VL [] end].
+      match snd r with Replied s => VL [VN s] | NoReply => VL [] | Dropped => VL [VL []] end].
 
 Definition e_enq (r : enq) : val :=
   match r with
   | Returned rs =>
       VL [VN 0; VL (map (fun p => match snd p with
                                   | Id _ => VN 0 | QErr _ => VN 1 | RelayErr _ => VN 2 end) rs)]
-  | Raised => VL [VN 1]
+  | Raised _ => VL [VN 1]
   | Blocked => VL [VN 2]
   end.
 
